@@ -190,3 +190,108 @@ func init() {
 		Stubs:   stubsCommon,
 	})
 }
+
+func init() {
+	register(&CheckDef{
+		ID:    "C14",
+		Title: "Behaviour is independent of index type, shard count, I/O type and limits",
+		Reach: []string{"done", "files-compared", "batch", "restarted"},
+		Jobs: func(tier string) []JobSpec {
+			var js []JobSpec
+			add := func(name string, params map[string]int64) {
+				js = append(js, JobSpec{Name: name, Harness: "root", Func: "verifHarnessC14", Params: params, Scale: scaleDF(32)})
+			}
+			base := p("pool", 2, "klen", 1, "vlens", 3, "vbig", 25)
+			js = append(js, JobSpec{Name: "nextPowerOfTwo-all-64-bit", Harness: "index", Func: "verifHarnessC14Pow2", Params: p(), Scale: scaleDF(32)})
+			if tier == "quick" {
+				add("hashmap-vs-btree", merge(base, p("k", 3, "ops", opPut|opDelete, "index", 3, "shards", 1, "b_index", 1, "b_shards", 2, "cmpfiles", 1)))
+				add("btree-vs-skiplist", merge(base, p("k", 3, "ops", opPut|opDelete, "index", 1, "shards", 2, "b_index", 2, "b_shards", 3, "cmpfiles", 1)))
+				add("std-vs-mmap", merge(base, p("k", 3, "ops", opPut|opDelete|opRestart, "index", 3, "shards", 1, "b_io", 2, "vlens", 2)))
+				add("dfs-and-sync", merge(base, p("k", 3, "ops", opPut|opDelete, "index", 3, "shards", 1, "dfs_lo", 40, "dfs_hi", 120, "b_dfs_lo", 40, "b_dfs_hi", 120, "b_sync", 2, "vlens", 2)))
+				add("shards-16-vs-5000-conckeys", merge(base, p("k", 3, "ops", opPut|opDelete, "conckeys", 1, "index", 3, "shards", 16, "b_shards", 5000, "b_index", 1, "cmpfiles", 1)))
+				add("batch-hashmap-vs-skiplist", merge(base, p("k", 2, "ops", opPut|opBatch, "vlens", 2, "index", 3, "shards", 1, "b_index", 2)))
+			} else {
+				for a := 1; a <= 3; a++ {
+					for b := a + 1; b <= 3; b++ {
+						add(fmt.Sprintf("%s-vs-%s-k4", idxName[a], idxName[b]), merge(base, p("k", 4, "ops", opPut|opDelete|opRestart, "index", a, "shards", 1, "b_index", b, "b_shards", 3)))
+					}
+				}
+				add("std-vs-mmap-k4", merge(base, p("k", 4, "ops", opPut|opDelete|opRestart, "index", 3, "shards", 1, "b_io", 2)))
+				add("dfs-and-sync-k4", merge(base, p("k", 4, "ops", opPut|opDelete, "index", 3, "shards", 1, "dfs_lo", 40, "dfs_hi", 150, "b_dfs_lo", 40, "b_dfs_hi", 150, "b_sync", 3, "vlens", 2)))
+				add("shards-1024-vs-5000-conckeys", merge(base, p("k", 4, "ops", opPut|opDelete|opRestart, "conckeys", 1, "index", 3, "shards", 1024, "b_shards", 5000, "b_index", 2)))
+				add("shards-16-vs-1-conckeys", merge(base, p("k", 4, "ops", opPut|opDelete|opRestart, "conckeys", 1, "index", 1, "shards", 16, "b_shards", 1, "b_index", 3)))
+				add("batch-k3", merge(base, p("k", 3, "ops", opPut|opDelete|opBatch, "vlens", 2, "index", 3, "shards", 1, "b_index", 1, "b_shards", 2)))
+			}
+			js = append(js, JobSpec{Name: "witness", Harness: "root", Func: "verifHarnessC14", Params: merge(base, p("k", 1, "ops", opPut, "index", 3, "shards", 1, "b_index", 1, "witness", 1)), Scale: scaleDF(32), Witness: true})
+			return js
+		},
+		Assumptions: []string{"blockSize scaled to 32 (Level 1)", "I/O never fails", "batch ids are time based: data-file bytes are compared only for batch-free histories under one DataFileSize"},
+		Bounds: map[string]string{
+			"quick":    "lock-step pairs: hashmap/btree, btree/skiplist, std/mmap, two symbolic DataFileSizes with different sync strategies, ShardNum 16 vs 5000 on concrete keys (real xxhash), batches; K=2-3 ops; nextPowerOfTwo for all 64-bit inputs (unbounded bit-vector query)",
+			"thorough": "all three index pairs at K=4 with restarts, std/mmap, dfs/sync pairs, ShardNum {1,16,1024,5000} on concrete keys, batches at K=3",
+		},
+		Outside: "sequences longer than K; configurations not listed; I/O errors",
+		Stubs:   stubsCommon,
+	})
+	register(&CheckDef{
+		ID:    "C15",
+		Title: "Caller buffers are never retained or modified; returned values never change",
+		Reach: []string{"done", "batch", "get-kept"},
+		Jobs: func(tier string) []JobSpec {
+			var js []JobSpec
+			add := func(name string, params map[string]int64) {
+				js = append(js, JobSpec{Name: name, Harness: "root", Func: "verifHarnessC15", Params: params, Scale: scaleDF(32)})
+			}
+			if tier == "quick" {
+				for idx := 1; idx <= 3; idx++ {
+					add(fmt.Sprintf("%s-k2", idxName[idx]), p("k", 2, "index", idx, "shards", 1))
+				}
+				add("hashmap-k3-s2", p("k", 3, "index", 3, "shards", 2, "nobatch", 1))
+			} else {
+				for idx := 1; idx <= 3; idx++ {
+					add(fmt.Sprintf("%s-k3", idxName[idx]), p("k", 3, "index", idx, "shards", 2))
+				}
+			}
+			js = append(js, JobSpec{Name: "witness", Harness: "root", Func: "verifHarnessC15", Params: p("k", 1, "index", 3, "shards", 1, "witness", 1), Scale: scaleDF(32), Witness: true})
+			return js
+		},
+		Assumptions: []string{"sync.Pool modelled as LIFO always-reuse (the adversarial case for aliasing)", "append growth follows the gc runtime's growslice policy (matters for which appends alias)"},
+		Bounds: map[string]string{
+			"quick":    "K=2 calls (K=3 without batches) over {Put, Delete, Get, batch(Put,Put same key[,Delete])} with ONE reused 2-byte key buffer and ONE reused 3-byte value buffer, scribbled with fresh symbolic bytes after every return; every index type",
+			"thorough": "K=3 with batches, every index type, 2 shards",
+		},
+		Outside: "sequences longer than K; buffers longer than 3 bytes; sync.Pool dropping items",
+		Stubs:   stubsCommon,
+	})
+	register(&CheckDef{
+		ID:    "C17",
+		Title: "Stat and space accounting are exact, and data files respect the size limit",
+		Reach: []string{"done", "oversized-file", "batch-committed", "restarted", "merged"},
+		Jobs: func(tier string) []JobSpec {
+			var js []JobSpec
+			add := func(name string, params map[string]int64) {
+				js = append(js, JobSpec{Name: name, Harness: "root", Func: "verifHarnessC17", Params: params, Scale: scaleDF(32)})
+			}
+			base := p("pool", 2, "klen", 1, "vlens", 2, "index", 3, "shards", 1)
+			if tier == "quick" {
+				add("plain-k3", merge(base, p("k", 3, "ops", opPut|opDelete|opRestart, "vlens", 3, "vbig", 25, "dfs_lo", 40, "dfs_hi", 160)))
+				add("batch-k2", merge(base, p("k", 2, "ops", opPut|opDelete|opBatch, "bmax", 2, "dfs_lo", 60, "dfs_hi", 160)))
+				add("merge-k3", merge(base, p("k", 3, "ops", opPut|opDelete|opMerge, "dfs_lo", 60, "dfs_hi", 160)))
+			} else {
+				add("plain-k4", merge(base, p("k", 4, "ops", opPut|opDelete|opRestart, "vlens", 3, "vbig", 25, "dfs_lo", 40, "dfs_hi", 160)))
+				add("batch-k3", merge(base, p("k", 3, "ops", opPut|opDelete|opBatch|opRestart, "bmax", 2, "dfs_lo", 60, "dfs_hi", 160)))
+				add("merge-k4", merge(base, p("k", 4, "ops", opPut|opDelete|opMerge|opRestart, "dfs_lo", 60, "dfs_hi", 160)))
+				add("btree-mmap-k3", merge(base, p("k", 3, "ops", opPut|opDelete|opBatch, "bmax", 1, "index", 1, "shards", 2, "io", 1, "dfs_lo", 60, "dfs_hi", 160)))
+			}
+			js = append(js, JobSpec{Name: "witness", Harness: "root", Func: "verifHarnessC17", Params: merge(base, p("k", 1, "ops", opPut, "witness", 1)), Scale: scaleDF(32), Witness: true})
+			return js
+		},
+		Assumptions: []string{"blockSize scaled to 32 (Level 1)", "statfs reports 16 GiB available (disk-full is outside the claim)", "live bytes = sizes held by the live index entries (in-package access)"},
+		Bounds: map[string]string{
+			"quick":    "K=2-3 ops over {Put,Delete,Restart,batch<=2,Merge}, pool 2 keys, value lengths {0,1,25}, DataFileSize symbolic in [40,160]; Stat checked after every step and after a final restart",
+			"thorough": "K=3-4 with restarts mixed in, mmap",
+		},
+		Outside: "histories longer than K; the inductive counter step at real geometry (not built)",
+		Stubs:   stubsCommon,
+	})
+}
